@@ -121,6 +121,7 @@ type BoundScenario struct {
 	Rule  string
 	Build func(a *Adv) (types.Block, consensus.V1BlockSupplement, bool)
 	Want  func(a *Adv) bool // true = must be accepted at a.Child
+	Any   func(a *Adv) bool // optional; true = no verdict is claimed at a.Child (documented legacy window): recorded only
 	From  uint64            // first child height worth probing
 	To    uint64            // last child height worth probing
 }
@@ -509,6 +510,57 @@ func (g *Gen) SetupBound(rule string) (sc BoundScenario, ok bool) {
 			return a.oneV2(bb.V2[0])
 		}
 		return sc, true
+	case "v2-ephemeral-parent-maturity":
+		// An immature output created earlier in the block (a siafund claim) and spent by a later transaction of the
+		// block as an ephemeral parent that claims maturity height 0. From EphemeralOutputHeight on the claimed parent
+		// is compared with the element the block really created, so the spend must be refused exactly from that child
+		// height; below it the claimed parent is not compared (documented legacy window): no verdict is asserted there.
+		E := net.HardforkV2.EphemeralOutputHeight
+		if net.MaturityDelay == 0 || E < child+1 || E > child+6 {
+			return sc, false
+		}
+		sc.From, sc.To = E-min64(E, 2), E+1
+		sc.Want = func(a *Adv) bool { return false }
+		sc.Any = func(a *Adv) bool { return a.Child < E }
+		sc.Build = func(a *Adv) (types.Block, consensus.V1BlockSupplement, bool) {
+			none := func() (types.Block, consensus.V1BlockSupplement, bool) {
+				return types.Block{}, consensus.V1BlockSupplement{}, false
+			}
+			if !a.v2Allowed() {
+				return none()
+			}
+			bb := NewBuilder(t, a.G.C, a.G.W)
+			bb.AllowEphemeral = false
+			if !bb.V2Siafunds() || len(bb.V2) != 1 || len(bb.V2[0].SiafundInputs) != 1 {
+				return none()
+			}
+			tx1 := bb.V2[0]
+			cid := tx1.SiafundInputs[0].Parent.ID.V2ClaimOutputID()
+			var claim *ExpSC
+			for i := range bb.Exp.CreatedSC {
+				if bb.Exp.CreatedSC[i].ID == cid {
+					claim = &bb.Exp.CreatedSC[i]
+				}
+			}
+			if claim == nil || claim.Value.IsZero() {
+				return none()
+			}
+			lock, known := a.G.W.Locks[claim.Address]
+			if !known || !lock.Spendable(true, a.Child, MedianTimestamp(a.CS)) {
+				return none()
+			}
+			forged := types.SiacoinElement{ID: cid, StateElement: types.StateElement{LeafIndex: types.UnassignedLeafIndex},
+				SiacoinOutput: types.SiacoinOutput{Value: claim.Value, Address: claim.Address}, MaturityHeight: 0}
+			tx2 := types.V2Transaction{SiacoinInputs: []types.V2SiacoinInput{forceV2Input(forged, lock)},
+				SiacoinOutputs: []types.SiacoinOutput{{Value: claim.Value, Address: types.Address{0xBB}}}}
+			SignV2(a.CS, &tx2, SignOpts{})
+			blk := types.Block{Timestamp: NextTimestamp(a.CS, 0, 0), V2: &types.V2BlockData{Transactions: []types.V2Transaction{tx1, tx2}}}
+			if err := Seal(a.CS, &blk, types.Address{0xAA}); err != nil {
+				return none()
+			}
+			return blk, a.G.C.Store.Supplement(blk, a.Child, net.HardforkV2.RequireHeight), true
+		}
+		return sc, true
 	case "v1-until-require-height":
 		R := net.HardforkV2.RequireHeight
 		if R < child+1 || R > child+6 {
@@ -575,7 +627,7 @@ var BoundRules = []string{
 	"v1-output-maturity", "v2-output-maturity", "v1-unlock-conditions-timelock", "v2-uc-policy-timelock", "v1-signature-timelock",
 	"v2-above", "v2-after", "v1-revision-window-start", "v1-proof-window", "v1-formation-window-start", "v1-proof-after-window-revised-in-block",
 	"v2-revision-proof-height", "v2-proof-height", "v2-expiration-height", "v2-formation-proof-height",
-	"v1-until-require-height", "v2-from-allow-height",
+	"v1-until-require-height", "v2-from-allow-height", "v2-ephemeral-parent-maturity",
 }
 
 // EmptyBlock applies an honest block without transactions (used to advance the chain).
